@@ -3,7 +3,7 @@
    Model/Probe.v (why a probe of a responsive member succeeds). *)
 From Coq Require Import List NArith ZArith Bool.
 Import ListNotations.
-From VF Require Import Base Core Core_lemmas Core_inv Healthy_proofs Cluster Cluster_proofs Probe Probe_proofs.
+From VF Require Import Base Core Core_lemmas Core_inv Healthy_proofs Cluster Cluster_proofs Agree_proofs Agree_cluster Probe Probe_proofs.
 
 (* The healthy cluster: nodes booted from good configurations with distinct names, an empty network,
    and then ANY interleaving of gossip transmissions, push/pull snapshots (joins are push/pulls),
@@ -40,16 +40,29 @@ Theorem C04_step_clean : forall dep c, fixed c = true -> forall s o,
 Proof. exact step_clean. Qed.
 Print Assumptions C04_step_clean.
 
-(* partial: "every health score stays at zero".  Proved: with no failed probe and no accusation the
-   score can move only while a node processes an alive claim about ITSELF (and then only by a
-   refutation, C02_alive_refuted).  Not proved: that in a healthy cluster every alive claim about a node
-   is an echo of, or older than, the node's own record (a cluster-wide agreement invariant); the
-   implementation is monitored for it (monitor 542). *)
-Theorem C04_score_partial : forall c s inc name addr meta vsn,
-  let '(s', evs) := do_alive c s inc name addr meta vsn false in
-  score s' = score s \/ (name = self c /\ leaving s = false).
-Proof. exact do_alive_score. Qed.
-Print Assumptions C04_score_partial.
+(* "every node's health score stays at zero": in every reachable state of the healthy cluster.  The
+   invariant behind it ([AW]): every alive claim about a member — held, queued or in flight anywhere — is an
+   echo of that member's own record or older than it, so no node ever has anything to refute.
+   [good_cfg6] adds to [good_cfg] that the node's own version vector has its six bytes. *)
+Theorem C04_scores_stay_zero : forall cs acts,
+  Forall (fun cm => good_cfg6 (fst cm)) cs -> NoDup (map (fun cm => self (fst cm)) cs) ->
+  run_ok (boot_world cs) acts ->
+  forall c s, In (c, s) (wnodes (fst (wrun (boot_world cs) acts))) -> score s = 0%Z.
+Proof. exact scores_stay_zero. Qed.
+Print Assumptions C04_scores_stay_zero.
+
+(* its inductive step: one action of the cluster keeps [AW] *)
+Theorem C04_agreement_step : forall w a, AW w -> act_ok w a -> AW (fst (wstep w a)).
+Proof. exact wstep_AW. Qed.
+Print Assumptions C04_agreement_step.
+
+(* and for one node: fed only echoes of, or claims older than, its own record it never refutes; its score
+   does not move; what it holds afterwards it held before, was fed, or is its own new announcement *)
+Theorem C04_step_agree : forall dep c, fixed c = true -> length (self_vsn c) = 6%nat -> forall s o,
+  clean dep c s -> own_inc c s -> left_inv c s -> benign dep c s o -> agreeable c s o ->
+  agree_step c s (fst (step c s o)) o.
+Proof. exact step_agree. Qed.
+Print Assumptions C04_step_agree.
 
 (* why there is no failed-probe step: an acknowledgement with the probe's own sequence number that
    arrives before the scaled interval ends makes the probe succeed, whatever else arrives *)
@@ -72,7 +85,7 @@ Definition sched : list wact :=
    WDeliver 0 2; WDeliver 0 3; WAdvance 0 50000000000; WReap 0].
 Example C04_nonvacuous :
   let cs := [(cfgn 1, 10%N); (cfgn 2, 20%N); (cfgn 3, 30%N)] in
-  Forall (fun cm => good_cfg (fst cm)) cs /\ NoDup (map (fun cm => self (fst cm)) cs) /\
+  Forall (fun cm => good_cfg6 (fst cm)) cs /\ NoDup (map (fun cm => self (fst cm)) cs) /\
   run_ok (boot_world cs) sched /\
   let '(w, evs) := wrun (boot_world cs) sched in
   map (fun cs => members (snd cs)) (wnodes w) =
